@@ -11,6 +11,8 @@ import (
 	"fmt"
 	"math/rand"
 	"reflect"
+	"runtime"
+	"sync/atomic"
 	"sync"
 	"time"
 
@@ -132,6 +134,7 @@ func main() {
 		}
 	}
 	heartbeatCap(rng)
+	heartbeatCapStampede(rng, r.Pick(400, 6000))
 	for i := 0; i < r.Pick(5, 100); i++ {
 		heartbeatCapAged(rng)
 	}
@@ -564,6 +567,50 @@ func heartbeatCapAged(rng *rand.Rand) {
 		}
 		r.Distinct("mutation_kinds", "heartbeat-cap-aged/"+layout)
 	}
+}
+
+// heartbeatCapStampede: several new nodes of one guardian announce themselves at the same instant while a single slot
+// (or two) is still free - its own heartbeat ticker and the gossip loop call SetHeartbeat concurrently. Each round starts
+// from a fresh table filled to one or two below the cap; eight goroutines are released by a spin barrier.
+func heartbeatCapStampede(rng *rand.Rand, rounds int) {
+	addr := vlib.Addr(vlib.Key(1))
+	worst := 0
+	for rd := 0; rd < rounds; rd++ {
+		gst := common.NewGuardianSetState(nil)
+		free := 1 + rng.Intn(2)
+		for i := 0; i < common.MaxNodesPerGuardian-free; i++ {
+			_ = gst.SetHeartbeat(addr, peer.ID(fmt.Sprintf("old-%d", i)), &gossipv1.Heartbeat{NodeName: "n", Timestamp: time.Now().UnixNano()})
+		}
+		var ready, goFlag int32
+		var wg sync.WaitGroup
+		for g := 0; g < 8; g++ {
+			wg.Add(1)
+			go func(g int) {
+				defer wg.Done()
+				hb := &gossipv1.Heartbeat{NodeName: "new", Timestamp: time.Now().UnixNano()}
+				atomic.AddInt32(&ready, 1)
+				for atomic.LoadInt32(&goFlag) == 0 {
+				}
+				_ = gst.SetHeartbeat(addr, peer.ID(fmt.Sprintf("new-%d-%d", rd, g)), hb)
+			}(g)
+		}
+		for atomic.LoadInt32(&ready) < 8 {
+			runtime.Gosched()
+		}
+		atomic.StoreInt32(&goFlag, 1)
+		wg.Wait()
+		n := len(gst.GetAll()[addr])
+		if n > worst {
+			worst = n
+		}
+		r.Count("cap_stampede_rounds", 1)
+		r.Count("messages", 8)
+		if n > common.MaxNodesPerGuardian {
+			r.Violation("heartbeat-table:more-than-max-nodes-per-guardian", map[string]interface{}{"guardian": addr.Hex(), "entries": n, "max": common.MaxNodesPerGuardian, "layout": fmt.Sprintf("%d free slots, 8 new nodes at the same instant", free)})
+			break
+		}
+	}
+	r.Distinct("mutation_kinds", fmt.Sprintf("heartbeat-cap-stampede/max=%d", worst))
 }
 
 func heartbeatCap(rng *rand.Rand) {
